@@ -50,6 +50,9 @@ type MemConn struct {
 	WriteErr func(p []byte, to net.Addr) error
 	// Drop, when non-nil, is consulted on every WriteTo; true loses the datagram silently.
 	Drop func(p []byte, to net.Addr) bool
+	// ErrGate, when non-nil, delays the moment a blocked or later ReadFrom reports that the socket was closed
+	// until the channel is closed (the exit of a relay reader becomes a step the harness schedules).
+	ErrGate chan struct{}
 	// ReadErr, when closed, makes ReadFrom fail with a non-ErrClosed error (relay socket failure).
 	ReadErr chan struct{}
 }
@@ -132,6 +135,10 @@ func (c *MemConn) ReadFrom(p []byte) (int, net.Addr, error) {
 		case k := <-c.ch:
 			return copy(p, k.Data), k.From, nil
 		case <-c.closed:
+			if c.ErrGate != nil {
+				<-c.ErrGate // the reader learns of the close only when the harness says so
+			}
+
 			return 0, nil, net.ErrClosed
 		case <-c.ReadErr:
 			return 0, nil, errInjectedRead
